@@ -122,3 +122,79 @@ fn c17_from_u64_exact_f32() {
     }
     kani::cover!(u == 1u64 << 24);
 }
+
+// ---------------------------------------------------------------- power look-ups (C14, C08)
+
+fn pow_u128(base: u128, n: usize) -> u128 {
+    let mut p: u128 = 1;
+    let mut i = 0;
+    while i < n {
+        p *= base;
+        i += 1;
+    }
+    p
+}
+
+/// f64::pow_fast_path(k), k in 0..=22, is EXACTLY 10^k (decoded from the bits), in every
+/// configuration that does not go through std's powf.
+#[kani::proof]
+#[kani::unwind(24)]
+fn c14_float_pow10_f64() {
+    let k: usize = kani::any();
+    kani::assume(k <= 22);
+    let x: f64 = unsafe { <f64 as Float>::pow_fast_path(k) };
+    let bits = x.to_bits();
+    let e_field = (bits >> 52) & 0x7FF;
+    assert!(bits >> 63 == 0 && e_field != 0 && e_field != 0x7FF);
+    let m = ((bits & ((1u64 << 52) - 1)) + (1u64 << 52)) as u128;
+    let e = e_field as i32 - 1075;
+    let p = pow_u128(10, k);
+    if e >= 0 {
+        assert!(e <= 40 && (m << (e as u32)) == p, "C14 f64 10^k exact");
+    } else {
+        let s = (-e) as u32;
+        assert!(s <= 52 && m & ((1u128 << s) - 1) == 0 && (m >> s) == p, "C14 f64 10^k exact");
+    }
+    kani::cover!(k == 22);
+    kani::cover!(k == 0);
+}
+
+#[kani::proof]
+#[kani::unwind(12)]
+fn c14_float_pow10_f32() {
+    let k: usize = kani::any();
+    kani::assume(k <= 10);
+    let x: f32 = unsafe { <f32 as Float>::pow_fast_path(k) };
+    let bits = f32::to_bits(x) as u64;
+    let e_field = (bits >> 23) & 0xFF;
+    assert!(bits >> 31 == 0 && e_field != 0 && e_field != 0xFF);
+    let m = ((bits & ((1u64 << 23) - 1)) + (1u64 << 23)) as u128;
+    let e = e_field as i32 - 150;
+    let p = pow_u128(10, k);
+    if e >= 0 {
+        assert!(e <= 40 && (m << (e as u32)) == p, "C14 f32 10^k exact");
+    } else {
+        let s = (-e) as u32;
+        assert!(s <= 23 && m & ((1u128 << s) - 1) == 0 && (m >> s) == p, "C14 f32 10^k exact");
+    }
+    kani::cover!(k == 10);
+}
+
+/// int_pow_fast_path(k, radix) == radix^k for every index a caller can pass
+/// (5: k <= 27, 10: k <= 19) -- table look-up in default builds, u64::pow in compact builds.
+#[kani::proof]
+#[kani::unwind(29)]
+fn c14_int_pow_fast_path() {
+    let k: usize = kani::any();
+    if kani::any() {
+        kani::assume(k <= 27);
+        let v = unsafe { int_pow_fast_path(k, FastPathRadix::Five) };
+        assert!(v as u128 == pow_u128(5, k), "C14 int_pow_fast_path(k, 5) == 5^k");
+        kani::cover!(k == 27);
+    } else {
+        kani::assume(k <= 19);
+        let v = unsafe { int_pow_fast_path(k, FastPathRadix::Ten) };
+        assert!(v as u128 == pow_u128(10, k), "C14 int_pow_fast_path(k, 10) == 10^k");
+        kani::cover!(k == 19);
+    }
+}
